@@ -14,20 +14,33 @@
   * Cooperativity (tasks honour cancellation at once, waits end when their condition holds, the timed waits E, W, D,
     C, H are kept) is NOT built into the transition relation: `delay` is always enabled; a run is cooperative iff all
     its delays satisfy `coopDelay` (`runC`, `ReachC`). Theorems about time say so in their hypotheses.
-  * `cfg.orchShielded = false` is THE MODEL OF THE CURRENT TREE for the orchestrator's `except CancelledError:`: its
-    `await aiotasks.stop(ensemble tasks)` is NOT shielded, so a SECOND cancellation — `run_tasks` stopping the root
-    tasks after a stop request or another failure, while the orchestrator is already stopping its ensemble because an
-    ensemble task has failed — interrupts it: label `orchAbandon`, flag `abandoned` (finding C20-F8). Cancellation is
-    modelled per task as in the code: `queueing.watcher` (observers, ensemble watchers) shields its `finally:` and
-    suppresses a second cancellation; the daemon killer is cancelled only once; the orchestrator is the exception.
-    After `orchAbandon` the model does NOT describe the code any more (the code lets the cleanup run beside the orphaned
-    ensemble and drops the failure: `double_cancel_abandons_ensemble_witness`, replayed on kopf): every theorem about the
-    shutdown carries the EXACT guard `s.abandoned = false` ("the orchestrator was not double-cancelled"), which holds
-    for every reachable state of the variant `orchShielded = true` (`shielded_never_abandoned`: the proposed repair).
-  Theorems that do not mention `cfg.fixed` / `cfg.coreWatched` / `cfg.orchShielded` hold for all variants.
+  * CANCELLATIONS OF `operator()` are handled by the current tree at every await of `spawn_tasks` / `run_tasks` but the last
+    (`rtCancel`): inside `spawn_tasks`' `sleep(0)` (since /repo d6da86b), while `run_tasks` waits for the first root task,
+    while it STOPS the root tasks (since /repo 883284c: every live root task is cancelled AGAIN — `cancelRootsV`, `scCut`,
+    the killer's interrupted `finally:`), while it waits for the hung tasks. The orchestrator shields the stop of its
+    ensemble (since /repo ab6fb15), the watchers re-raise a worker's error after their depletion (since /repo 69d1957).
+    `cfg.orchShielded`, `cfg.spawnSwept`, `cfg.stopSwept`, `cfg.deplEscalates` = true is THE MODEL OF THE CURRENT TREE
+    (`cfgHead`; `Kopf/Tie/C20.lean` re-checks the four facts against the source on every run).
+  * HISTORICAL variants (a flag = false): three labels (`Label.leaves`: `orchAbandon` C20-F8, `spawnCancel` C20-F10,
+    `stopCancel` C20-F11) set the ghost flag `abandoned` and nothing else — the OLD code went on there in a way the model
+    does not describe. In the model of the current tree none of them is enabled: `repaired_never_abandoned`,
+    `head_never_abandoned`. The theorems below are stated for every `cfg`; for a historical variant they speak about
+    the model, which is faithful to the old code only while `abandoned = false` (the `historical_…_witness` theorems show
+    what the old code did at those labels; their corpus witnesses are regression tests now).
+  * NOT modelled (assumptions on the environment): a further cancellation of an `operator()` that is already inside one
+    of its `stop(…, cancelled=True)` (`aiotasks.stop` gives up BY DESIGN, "double-cancelling") or inside the final
+    `stop(hung_pending)` (instantaneous in a cooperative run); a cancellation of the startup/cleanup task inside
+    `stop(core_tasks)` after a FAILED startup.
+  * BY DESIGN, not a theorem: a REPEATED cancellation (`rtCancel` while `run_tasks` stops the root tasks) interrupts
+    `startup_cleanup_activities` where it waits — the cleanup handlers are skipped or cut short
+    (`repeated_cancel_skips_cleanup_witness`, deviation C20-D4). "Cleanup LAST" is unaffected (`cleanup_last`,
+    `interrupted_killer_never_meets_cleanup`).
+  Theorems that do not mention `cfg.fixed` / `cfg.coreWatched` / `cfg.deplEscalates` hold for all variants.
 -/
 import Kopf.Lemmas.C20_Trace
 import Kopf.Lemmas.C20_InvT
+import Kopf.Lemmas.C20_Flag
+import Kopf.Lemmas.C20_InvK
 namespace Kopf.C20
 
 /-! ### Startup first -/
@@ -102,8 +115,9 @@ theorem ready_after_startup {cfg : Cfg} {s : State} (hr : Reach cfg s) (h : s.re
 
 /-- Once `run_tasks` has begun to stop the root tasks, EVERY other root task that is still alive has been cancelled
     (the request is pending) or is already in its `finally:`; `run_tasks` reaches the hung-task phase only when all
-    root tasks have ended, and returns only when all hung tasks are gone as well. -/
-theorem root_failure_stops_all {cfg : Cfg} {s : State} (hr : ReachC cfg s) (hna : s.abandoned = false) :
+    root tasks have ended, and returns only when all hung tasks are gone as well — on EVERY path: a root task ended, a stop flag,
+    a cancellation of `operator()` at any of the handled moments (see the header). -/
+theorem root_failure_stops_all {cfg : Cfg} {s : State} (hr : ReachC cfg s) :
     ((s.rt = .stoppingRoots ∨ s.rt = .cStoppingRoots) → ∀ r, r ≠ .startupCleanup → (s.st (.root r)).live = true →
         s.creq (.root r) = true ∨ (s.st (.root r)).isStopping = true)
     ∧ (s.rt ≠ .waiting → s.rt ≠ .stoppingRoots → s.rt ≠ .cStoppingRoots → ∀ r, (s.st (.root r)).ended = true)
@@ -123,15 +137,16 @@ theorem root_failure_stops_all {cfg : Cfg} {s : State} (hr : ReachC cfg s) (hna 
 
 /-- THE RUN CALL CAN RETURN (progress, as a POSSIBILITY: EF, not AF). After a trigger (`Triggered`: a stop was
     requested, a root task has ended for whatever reason, `run_tasks` is already stopping, or a failure that the code
-    escalates has happened — `tFail`) every cooperatively reachable state that is not `abandoned` has a continuation to
+    escalates has happened — `tFail`) every cooperatively reachable state has a continuation to
     `exited` that consists of INTERNAL steps only (`internal`: no further action of the environment, no new failure;
     it contains the fairness assumptions: daemons exit, workers finish, the cleanup activity ends), is itself
-    cooperative and never abandons the ensemble. NOT proved: that EVERY fair continuation exits (inevitability).
+    cooperative and takes none of the historical `leaves` labels. PARTIAL w.r.t. "the run call returns": a POSSIBILITY
+    (EF); NOT proved: that EVERY fair continuation exits (inevitability, AF).
     Together with `no_timelock` and the bounds: the shutdown cannot get stuck, cannot be blocked with the clock
     stopped, and — when it proceeds cooperatively — is over within the bound. -/
-theorem returns {cfg : Cfg} {s : State} (hr : ReachC cfg s) (ht : Triggered s) (hna : s.abandoned = false) :
-    ∃ ls s', runI cfg s ls = some s' ∧ s'.rt = .exited ∧ s'.abandoned = false :=
-  returns_aux (mu cfg s) s (Nat.le_refl _) hr ht hna
+theorem returns_partial {cfg : Cfg} {s : State} (hr : ReachC cfg s) (ht : Triggered s) :
+    ∃ ls s', runI cfg s ls = some s' ∧ s'.rt = .exited ∧ s'.abandoned = s.abandoned :=
+  returns_aux (mu cfg s) s (Nat.le_refl _) hr ht
 
 /-- No timelock: whenever cooperativity forbids time to pass (`urgent`), some internal non-`delay` step is enabled —
     "time cannot pass" never means "nothing can happen". -/
@@ -141,6 +156,18 @@ theorem no_timelock {cfg : Cfg} {s : State} (hr : ReachC cfg s) (hne : s.rt ≠ 
   rcases advance_or_wait hr hne with ⟨l, s', h1, h2, h3, _⟩ | ⟨hq, _⟩
   · exact ⟨l, s', h1, h2, by rw [stepC_eq_step h2]; exact h3⟩
   · rw [hu] at hq; cases hq
+
+/-- THE STOP FLAG IS FELT AT ONCE: once the stop flag is set and `run_tasks` still waits, no cooperative time passes (the
+    stop-flag checker ends, then `run_tasks` begins to stop the root tasks): in a cooperative run `t0` — from which
+    `exit_bound_partial` counts — IS the instant of the stop request, for the flag as for a cancellation (`rtCancel` from
+    `waiting` sets `t0 := now` itself). Holds for every cooperatively reachable state. -/
+theorem stop_flag_felt_at_once {cfg : Cfg} {s : State} (hr : ReachC cfg s) (hf : s.stopFlagSet = true)
+    (hw : s.rt = .waiting) : ∀ n, coopDelay cfg s n = false := by
+  rcases stopFlag_status hr.reach with h | h
+  · intro n
+    have hu : urgent cfg s = true := by unfold urgent; simp [hf, h]
+    simp [coopDelay, hu]
+  · exact (root_ended_urgent .stopFlag h hw).1
 
 /-! ### Cleanup last -/
 
@@ -152,8 +179,9 @@ theorem no_timelock {cfg : Cfg} {s : State} (hr : ReachC cfg s) (hne : s.rt ≠ 
     Last conjunct (since /repo 1d3a667 nothing is spawned after the daemon killer's sweep: `daemonSpawn` needs
     `killed = false`): once the killer has swept, EVERY daemon that is still running has got an exit stopper — what runs
     on is a daemon that ignores its stopper and that kopf abandons by design (deviation C20-D1), never one that nobody
-    asked to stop (the repaired C20-F9). -/
-theorem cleanup_last {cfg : Cfg} {s : State} (hr : Reach cfg s) (h : s.cleanupBegun = true) (hna : s.abandoned = false) :
+    asked to stop (the repaired C20-F9). A daemon killer whose `finally:` was interrupted by a repeated cancellation
+    (`killerCut`: it did not wait for its stoppers) never coexists with the cleanup: `interrupted_killer_never_meets_cleanup`. -/
+theorem cleanup_last {cfg : Cfg} {s : State} (hr : Reach cfg s) (h : s.cleanupBegun = true) :
     (∀ r, r ≠ .startupCleanup → (s.st (.root r)).ended = true) ∧ s.core.live = false
     ∧ (∀ i, i < s.nSubs → (s.st (.sub i)).live = false)
     ∧ (∀ w o, s.wk w ≠ some (o, .running))
@@ -186,7 +214,11 @@ theorem cleanup_last {cfg : Cfg} {s : State} (hr : Reach cfg s) (h : s.cleanupBe
       rw [TS.active_live hact] at this
       cases this
   · intro hnf d hd hsr hco
-    have h3 := hE.killerDone (h1 .daemonKiller (by decide)) hnf d hd hsr hco
+    have hkc : s.killerCut = false := by
+      cases hk : s.killerCut with
+      | false => rfl
+      | true => have := ((InvK.reach hr).cut (Or.inl hk)).2; rw [h] at this; cases this
+    have h3 := hE.killerDone (h1 .daemonKiller (by decide)) hnf hkc d hd hsr hco
     have h4 := hE.dmPresent d hd
     cases hdm : s.dm d with
     | ended => rfl
@@ -200,7 +232,7 @@ theorem cleanup_last {cfg : Cfg} {s : State} (hr : Reach cfg s) (h : s.cleanupBe
     the whole run, see finding C20-F9) — has failed, and it returns normally only if NO root task failed (the cancelled
     outcome is the operator's own cancellation). WHICH of several failures is raised is not specified by the code (set
     iteration order) and not by the model. -/
-theorem reraise {cfg : Cfg} {s : State} (hr : Reach cfg s) (hex : s.rt = .exited) (hna : s.abandoned = false) :
+theorem reraise {cfg : Cfg} {s : State} (hr : Reach cfg s) (hex : s.rt = .exited) :
     ∃ r, s.result = some r ∧ (r = .raised → (∃ q, s.st (.root q) = .failed) ∨ s.hungFailed = true)
       ∧ (r = .returned → ∀ q, s.st (.root q) ≠ .failed) := by
   have hB := InvB.reach hr
@@ -218,7 +250,7 @@ theorem reraise {cfg : Cfg} {s : State} (hr : Reach cfg s) (hex : s.rt = .exited
 
 /-- No daemon task is alive when `operator()` is over (whoever ended it: its exit stopper, or the hung-task
     cancellation of `run_tasks`; see `cleanup_last` for what is over BEFORE the cleanup). -/
-theorem no_daemon_alive_at_return {cfg : Cfg} {s : State} (hr : Reach cfg s) (hex : s.rt = .exited) (hna : s.abandoned = false) :
+theorem no_daemon_alive_at_return {cfg : Cfg} {s : State} (hr : Reach cfg s) (hex : s.rt = .exited) :
     ∀ d, d < s.nDaemons → s.dm d = .ended := by
   intro d hd
   have h1 := ((InvC.reach hr).exitedHung hex).2.1 d hd
@@ -229,9 +261,10 @@ theorem no_daemon_alive_at_return {cfg : Cfg} {s : State} (hr : Reach cfg s) (he
   | absent => exact absurd hdm h2
 
 /-- The peering record: when `operator()` is over every keep-alive task has ended, and none ends without having
-    ATTEMPTED the withdrawal (`lifetime=0` PATCH). FULL CLAUSE "the record is withdrawn" is NOT provable: kopf logs
-    and ignores a failure of that PATCH (`peering.keepalive`'s `finally:`), see `withdrawal_may_fail_witness`. -/
-theorem peering_withdrawal_attempted {cfg : Cfg} {s : State} (hr : Reach cfg s) (hex : s.rt = .exited) (hna : s.abandoned = false)
+    ATTEMPTED the withdrawal (`lifetime=0` PATCH). PARTIAL w.r.t. the property's "the record is withdrawn": that FULL CLAUSE is
+    NOT provable — kopf logs and ignores a failure of that PATCH (`peering.keepalive`'s `finally:`), see
+    `withdrawal_may_fail_witness` (deviation C20-D3). -/
+theorem peering_withdrawal_attempted_partial {cfg : Cfg} {s : State} (hr : Reach cfg s) (hex : s.rt = .exited)
     (i : Nat) (hi : i < s.nSubs) (hk : s.kind i = .pinger) :
     (s.st (.sub i)).ended = true ∧ s.withdrawn i = true := by
   have hB := InvB.reach hr
@@ -250,71 +283,100 @@ theorem peering_withdrawal_attempted {cfg : Cfg} {s : State} (hr : Reach cfg s) 
 
 /-! ### Worker failures -/
 
-/-- FULL CLAUSE ("an object worker failing unrecoverably stops the whole operator") is false of the code for a
-    worker that fails while its watcher is already in its `finally:` — see
-    `worker_failure_during_depletion_dropped_witness` (finding C20-F5). PROVED under the exact guard
-    `s.st o = .running` (the watcher still streams): the failure reaches the watcher (`exception_handler`): it is
-    cancelled with `worker_error` set, and a watcher with `worker_error` can only end FAILED. -/
-theorem worker_failure_reaches_watcher_partial {cfg : Cfg} {s s' : State} (hr : Reach cfg s) (w : Nat) (o : Task)
-    (hw : s.wk w = some (o, .running)) (ho : s.st o = .running)
+/-- THE CLAIM for the current tree (`cfg.deplEscalates = true`, since /repo 69d1957 — repair of finding C20-F5; tie-checked):
+    an object worker that fails unrecoverably ALWAYS reaches its watcher, wherever the watcher is — streaming (it is
+    cancelled with `worker_error` set: `exception_handler`) or already in its `finally:` (depleting its workers on the
+    operator's exit, after an HTTP 404, after `terminate_redundancies`: `worker_error` is set and the watcher is going to
+    raise the RuntimeError after the depletion, `stopping true`) — and a watcher with `worker_error` can only end FAILED.
+    No guard on the watcher's state any more (before 69d1957 this needed "the watcher still streams":
+    `historical_worker_failure_during_depletion_dropped_witness`, `historical_worker_failure_after_gone_keeps_running_witness`). -/
+theorem worker_failure_reaches_watcher {cfg : Cfg} (hde : cfg.deplEscalates = true) {s s' : State} (hr : Reach cfg s)
+    (w : Nat) (o : Task) (hw : s.wk w = some (o, .running))
     (h : step cfg s (.workerEnd w .failed) = some s') :
-    s'.werr o = true ∧ s'.creq o = true ∧
+    s'.werr o = true ∧ (s'.creq o = true ∨ ∃ dl, s'.st o = .stopping true dl) ∧
     (∀ t : State, Reach cfg t → t.werr o = true → (t.st o).ended = true → t.st o = .failed) := by
   have hB := InvB.reach hr
-  refine ⟨?_, ?_, ?_⟩
-  · simp only [step] at h
-    split at h
-    · simp only [hw] at h
-      split at h
-      · cases h; simp
-      · cases h
-        rename_i hn
-        cases hwe : s.werr o with
-        | true => rfl
-        | false => exact absurd ⟨ho, hwe⟩ hn
-    · cases h
-  · simp only [step] at h
-    split at h
-    · simp only [hw] at h
-      split at h
-      · cases h; simp
-      · cases h
-        rename_i hn
-        cases hwe : s.werr o with
-        | false => exact absurd ⟨ho, hwe⟩ hn
-        | true =>
-          cases o with
-          | root r =>
-            rcases (hB.werrRoot r hwe).2 with ⟨_, hc⟩ | ⟨dl, hs⟩ | hs
-            · exact hc
-            · rw [ho] at hs; cases hs
-            · rw [ho] at hs; cases hs
-          | sub i =>
-            rcases (hB.werrSub i hwe).2 with ⟨_, hc⟩ | ⟨dl, hs⟩ | hs
-            · exact hc
-            · rw [ho] at hs; cases hs
-            · rw [ho] at hs; cases hs
-    · cases h
-  · intro t ht hwe hend
-    have hBt := InvB.reach ht
+  -- the owner of a running worker streams, or is in its `finally:` (which has a deadline)
+  have hown : s.st o = .running ∨ ∃ f dl, s.st o = .stopping f (some dl) := by
     cases o with
     | root r =>
-      rcases (hBt.werrRoot r hwe).2 with ⟨hs, _⟩ | ⟨dl, hs⟩ | hs
-      · rw [hs] at hend; cases hend
-      · rw [hs] at hend; cases hend
-      · exact hs
+      obtain ⟨_, hact, hk⟩ := hB.wkRoot w r hw
+      cases hst : s.st (.root r) with
+      | running => exact Or.inl rfl
+      | stopping f dl =>
+        cases dl with
+        | some d => exact Or.inr ⟨f, d, rfl⟩
+        | none => have := hB.stoppingNone r f hst; subst this; simp [Root.kind] at hk
+      | _ => rw [hst] at hact; simp at hact
     | sub i =>
-      rcases (hBt.werrSub i hwe).2 with ⟨hs, _⟩ | ⟨dl, hs⟩ | hs
-      · rw [hs] at hend; cases hend
-      · rw [hs] at hend; cases hend
-      · exact hs
+      obtain ⟨_, hact, _⟩ := hB.wkSub w i hw
+      cases hst : s.st (.sub i) with
+      | running => exact Or.inl rfl
+      | stopping f dl =>
+        cases dl with
+        | some d => exact Or.inr ⟨f, d, rfl⟩
+        | none => exact absurd hst (hB.subSome i f)
+      | _ => rw [hst] at hact; simp at hact
+  -- an owner that has `worker_error` already: cancelled, or on its way to fail
+  have hwerr : s.werr o = true → s.creq o = true ∨ ∃ dl, s.st o = .stopping true dl := by
+    intro hwe
+    have hne : s.st o ≠ .failed := by
+      rcases hown with h1 | ⟨f, dl, h1⟩ <;> rw [h1] <;> simp
+    cases o with
+    | root r =>
+      rcases (hB.werrRoot r hwe).2 with ⟨_, hc⟩ | ⟨dl, hs⟩ | hs
+      · exact Or.inl hc
+      · exact Or.inr ⟨dl, hs⟩
+      · exact absurd hs hne
+    | sub i =>
+      rcases (hB.werrSub i hwe).2 with ⟨_, hc⟩ | ⟨dl, hs⟩ | hs
+      · exact Or.inl hc
+      · exact Or.inr ⟨dl, hs⟩
+      · exact absurd hs hne
+  have h12 : s'.werr o = true ∧ (s'.creq o = true ∨ ∃ dl, s'.st o = .stopping true dl) := by
+    simp only [step] at h
+    split at h
+    · simp only [hw] at h
+      split at h
+      · -- the watcher streams: cancelled, `worker_error` set
+        cases h; exact ⟨by simp, Or.inl (by simp)⟩
+      · rename_i hn
+        cases hwe : s.werr o with
+        | true =>
+          -- a second error: only logged, the first one is on its way
+          rw [if_neg (by simp [hwe])] at h
+          cases h
+          exact ⟨hwe, hwerr hwe⟩
+        | false =>
+          rw [if_pos ⟨hde, hwe⟩] at h
+          rcases hown with h1 | ⟨f, dl, h1⟩
+          · exact absurd ⟨h1, hwe⟩ hn
+          · simp only [h1] at h
+            cases h
+            exact ⟨by simp, Or.inr ⟨some dl, by simp⟩⟩
+    · cases h
+  refine ⟨h12.1, h12.2, ?_⟩
+  intro t ht hwe hend
+  have hBt := InvB.reach ht
+  cases o with
+  | root r =>
+    rcases (hBt.werrRoot r hwe).2 with ⟨hs, _⟩ | ⟨dl, hs⟩ | hs
+    · rw [hs] at hend; cases hend
+    · rw [hs] at hend; cases hend
+    · exact hs
+  | sub i =>
+    rcases (hBt.werrSub i hwe).2 with ⟨hs, _⟩ | ⟨dl, hs⟩ | hs
+    · rw [hs] at hend; cases hend
+    · rw [hs] at hend; cases hend
+    · exact hs
 
-/-- A failed worker stops the whole operator (current tree, `fixed`; for a worker that failed while its watcher
-    was streaming, see the `_partial` above): the watcher — a root observer or an ensemble task — can only end
-    FAILED and is not "gone" (HTTP 404 cannot overtake the pending cancellation). For a root observer that is a
+/-- A failed worker stops the whole operator (current tree, `fixed`; that the failure reaches the watcher — `werr` — wherever
+    the watcher is: `worker_failure_reaches_watcher`): the watcher — a root observer or an ensemble task — can only end
+    FAILED and is not "gone" (HTTP 404 cannot overtake the pending cancellation, and a worker failing during the depletion
+    of a "gone" watcher makes it fail with the RuntimeError instead). For a root observer that is a
     root failure; for an ensemble task the running orchestrator is cancelled at once and cooperative time cannot
-    pass (then `stream_failure_stops_all`, `root_failure_stops_all`, `returns`). -/
-theorem worker_failure_stops_all {cfg : Cfg} (hfix : cfg.fixed = true) {s : State} (hr : Reach cfg s) (hna : s.abandoned = false) :
+    pass (then `stream_failure_stops_all`, `root_failure_stops_all`, `returns_partial`). -/
+theorem worker_failure_stops_all {cfg : Cfg} (hfix : cfg.fixed = true) {s : State} (hr : Reach cfg s) :
     (∀ r, s.werr (.root r) = true → (s.st (.root r)).ended = true →
         s.st (.root r) = .failed ∧ s.rootFailed = true ∧ (s.rt = .waiting → ∀ n, coopDelay cfg s n = false))
     ∧ (∀ i, s.werr (.sub i) = true → (s.st (.sub i)).ended = true →
@@ -355,13 +417,14 @@ theorem worker_failure_stops_all {cfg : Cfg} (hfix : cfg.fixed = true) {s : Stat
 
 /-- PARTIAL w.r.t. the property's "within the bounded grace periods": proved for COOPERATIVE runs only (`ReachC`:
     every `delay` satisfies `coopDelay` — tasks honour cancellation at once, the cleanup activity takes at most `C`,
-    kopf sets no limit for it; one stop trigger per run). From the moment `run_tasks` begins to stop the root tasks
-    (`t0`: a root task ended, or `operator()` was cancelled) the operator is gone within
+    kopf sets no limit for it). From the moment `run_tasks` begins to stop the root tasks
+    (`t0`: a root task ended, or `operator()` was cancelled; a REPEATED cancellation afterwards only shortens the rest) the
+    operator is gone within
     `E` (worker depletion, `settings.queueing.exit_timeout`) + `W` (peering withdrawal) + `D` (exit stoppers of
     daemons) + `C` (cleanup activity) + `H` (hung tasks, 5 s). For a NON-cooperative run nothing bounds the exit
     (`aiotasks.stop` has no timeout): `noncooperative_exit_unbounded_witness`. The time between a failure and `t0` is
     covered by `failure_to_stop_bound_partial`. -/
-theorem exit_bound_partial {cfg : Cfg} {s : State} (hr : ReachC cfg s) (hna : s.abandoned = false) (t : Nat) (ht : s.t0 = some t) :
+theorem exit_bound_partial {cfg : Cfg} {s : State} (hr : ReachC cfg s) (t : Nat) (ht : s.t0 = some t) :
     s.now ≤ t + cfg.E + cfg.W + cfg.D + cfg.C + cfg.H ∧
     (∀ x, s.exitAt = some x → x ≤ t + cfg.E + cfg.W + cfg.D + cfg.C + cfg.H) := by
   have hC := InvC.reach hr.reach
@@ -384,11 +447,11 @@ theorem exit_bound_partial {cfg : Cfg} {s : State} (hr : ReachC cfg s) (hna : s.
 
 /-- PARTIAL (cooperative runs, like `exit_bound_partial`): FROM THE FAILURE. `tFail` is the moment of the first
     failure the code escalates (`markFail`: a failed startup handler, a failing stream or task of a root observer,
-    a worker failing under a streaming watcher; an ensemble task in the variant `fixed`, the core task in the variant
-    `coreWatched`). `run_tasks` stops waiting within `2·(E+W+D)` of it (the failing task's own `finally:`, then — for
+    a worker failing under a streaming watcher or — variant `deplEscalates` — a depleting one; an ensemble task in the
+    variant `fixed`, the core task in the variant `coreWatched`). `run_tasks` stops waiting within `2·(E+W+D)` of it (the failing task's own `finally:`, then — for
     an ensemble task — the orchestrator stopping the other streams), hence the operator is gone within
     `3·(E+W+D) + C + H` of the failure. This is the bound the oracle of the harness uses for runs with a failure. -/
-theorem failure_to_stop_bound_partial {cfg : Cfg} {s : State} (hr : ReachC cfg s) (hna : s.abandoned = false) (tf : Nat)
+theorem failure_to_stop_bound_partial {cfg : Cfg} {s : State} (hr : ReachC cfg s) (tf : Nat)
     (htf : s.tFail = some tf) :
     (s.rt = .waiting → s.now ≤ tf + 2 * (cfg.E + cfg.W + cfg.D))
     ∧ (∀ t, s.t0 = some t → t ≤ tf + 2 * (cfg.E + cfg.W + cfg.D))
@@ -405,14 +468,15 @@ theorem failure_to_stop_bound_partial {cfg : Cfg} {s : State} (hr : ReachC cfg s
   · have := h1 hw; omega
   · obtain ⟨t, ht, _⟩ := hC.t0Some hw
     have := h2 t ht
-    have := (exit_bound_partial hr hna t ht).1
+    have := (exit_bound_partial hr t ht).1
     omega
 
 /-! ### The stream / worker failure clause (ensemble tasks) -/
 
 /-- HISTORICAL: the model of the code BEFORE /repo 9ef1bcb (no edge from the ensemble tasks to the orchestrator),
     with the default grace periods in ticks of 1/64 s. -/
-def cfgHistorical : Cfg := { fixed := false, coreWatched := false, orchShielded := false, E := 128, W := 264, D := 64, C := 32, H := 320 }
+def cfgHistorical : Cfg := { fixed := false, coreWatched := false, orchShielded := false, spawnSwept := false, stopSwept := false,
+                             deplEscalates := false, E := 128, W := 264, D := 64, C := 32, H := 320 }
 
 /-- THE CURRENT TREE: what `Kopf/Tie/C20.lean` proves equal to the facts extracted from the source. -/
 def cfgHead : Cfg := headCfg 128 264 64 32 320
@@ -426,9 +490,19 @@ def cfgProposed : Cfg := { cfgHead with coreWatched := true }
 
 theorem cfgProposed_eq_head : cfgProposed = cfgHead := rfl
 
-/-- the tree with the proposed repair of C20-F8 (`/verif/proposals/fix-C20F8.diff`): the orchestrator shields the stop of
-    its ensemble from further cancellations -/
-def cfgShielded : Cfg := { cfgHead with orchShielded := true }
+/-- HISTORICAL: the tree BEFORE /repo ab6fb15, when the orchestrator did not shield the stop of its ensemble (finding C20-F8) -/
+def cfgUnshielded : Cfg := { cfgHead with orchShielded := false }
+
+/-- HISTORICAL: the tree BEFORE /repo d6da86b, when a cancellation inside `spawn_tasks` was not handled (finding C20-F10) -/
+def cfgSpawnUnswept : Cfg := { cfgHead with spawnSwept := false }
+
+/-- HISTORICAL: the tree BEFORE /repo 883284c, when a cancellation while `run_tasks` stopped the root tasks was not handled
+    (finding C20-F11) -/
+def cfgStopUnswept : Cfg := { cfgHead with stopSwept := false }
+
+/-- HISTORICAL: the tree BEFORE /repo 69d1957, when a worker failing during its watcher's depletion was only logged
+    (finding C20-F5) -/
+def cfgDeplSilent : Cfg := { cfgHead with deplEscalates := false }
 
 /-- startup succeeds, every guarded task and the core task enter -/
 def startAll : List Label :=
@@ -461,9 +535,10 @@ theorem historical_stream_failure_lingers_witness (n : Nat) (hn : 0 < n) :
 /-- THE CLAIM for the current tree (`cfg.fixed = true`): a failed ensemble task (watch stream, peering watch,
     keep-alive — or a watcher failed by its worker; NOT a watcher whose resource is merely gone, HTTP 404) cancels
     the running orchestrator at once (no cooperative time passes), the orchestrator then can only end FAILED, i.e. a
-    root failure: everything is stopped (`root_failure_stops_all`), the run call returns (`returns`, within
-    `failure_to_stop_bound_partial`), and not normally. -/
-theorem stream_failure_stops_all {cfg : Cfg} (hfix : cfg.fixed = true) {s : State} (hr : Reach cfg s) (hna : s.abandoned = false) :
+    root failure: everything is stopped (`root_failure_stops_all`), the run call returns (`returns_partial`, within
+    `failure_to_stop_bound_partial`), and not normally — also when a stop request or another failure follows while the
+    orchestrator is stopping its ensemble (since /repo ab6fb15 a second cancellation does not reach it: `cancelRootsV`). -/
+theorem stream_failure_stops_all {cfg : Cfg} (hfix : cfg.fixed = true) {s : State} (hr : Reach cfg s) :
     (∀ i s', s.st (.root .orchestrator) = .running → s.gone i = false →
         step cfg s (.subEnd i .failed) = some s' →
         s'.creq (.root .orchestrator) = true ∧ s'.orchErr = true ∧ ∀ n, coopDelay cfg s' n = false)
@@ -601,8 +676,8 @@ theorem historical_core_failure_skips_cleanup_witness :
     fail at once: while that watcher runs no cooperative time passes and its failing is enabled; it can
     end only FAILED (or cancelled, when a stop is already under way); if it is not running any more, a root task
     has already ended (`Triggered`). Either way everything is stopped (`root_failure_stops_all`), the run call returns
-    (`returns`) and raises; and the cleanup activity is NOT skipped: the error is re-raised after it. -/
-theorem core_failure_stops_all {cfg : Cfg} (hcw : cfg.coreWatched = true) {s : State} (hr : Reach cfg s) (hna : s.abandoned = false)
+    (`returns_partial`) and raises; and the cleanup activity is NOT skipped: the error is re-raised after it. -/
+theorem core_failure_stops_all {cfg : Cfg} (hcw : cfg.coreWatched = true) {s : State} (hr : Reach cfg s)
     (hc : s.core = .failed) :
     (s.st (.root .coreWatcher) = .running → s.rt ≠ .exited →
         (∀ n, coopDelay cfg s n = false) ∧ (step cfg s (.rootEnd .coreWatcher .failed)).isSome = true)
@@ -652,7 +727,115 @@ theorem core_failure_stops_all {cfg : Cfg} (hcw : cfg.coreWatched = true) {s : S
       cases h; rfl
     · cases h
 
-/-! ### The double-cancelled orchestrator: finding C20-F8 -/
+/-! ### Nothing runs on after the run call has returned; the repeated cancellation -/
+
+/-- When `operator()` is over — returned, raised or cancelled, on whichever path — NOTHING of it is alive: every root task
+    has ended, and with them every ensemble task (watch streams, peering), every worker (hence every handler in flight),
+    every daemon, the stop-flag waiter and every orphaned helper. (This is what the repaired findings C20-F10 / C20-F11
+    violated: `operator()` returned BEFORE its tasks were over.) NOT claimed: the core task — the model lets
+    `startup_cleanup_activities`, interrupted inside `stop(core_tasks)` by a repeated cancellation, end before it; in the
+    code it is then awaited as a hung task. -/
+theorem nothing_alive_at_return {cfg : Cfg} {s : State} (hr : Reach cfg s) (hex : s.rt = .exited) :
+    (∀ r, (s.st (.root r)).ended = true)
+    ∧ (∀ i, i < s.nSubs → (s.st (.sub i)).live = false)
+    ∧ (∀ w o, s.wk w ≠ some (o, .running))
+    ∧ (∀ d, d < s.nDaemons → s.dm d = .ended)
+    ∧ s.waiter = false ∧ s.orphans = 0 := by
+  have hB := InvB.reach hr
+  have hC := InvC.reach hr
+  have hroots := hC.hungRoots (by simp [hex]) (by simp [hex]) (by simp [hex])
+  have hsub : ∀ i, i < s.nSubs → (s.st (.sub i)).live = false := by
+    intro i hi
+    cases hl : (s.st (.sub i)).live with
+    | false => rfl
+    | true =>
+      have := hB.subOrch i hi hl
+      rw [TS.ended_not_active (hroots .orchestrator)] at this
+      cases this
+  obtain ⟨hw, _, ho⟩ := hC.exitedHung hex
+  refine ⟨hroots, hsub, ?_, no_daemon_alive_at_return hr hex, hw, ho⟩
+  intro w o hwk
+  cases o with
+  | root r =>
+    obtain ⟨_, hact, _⟩ := hB.wkRoot w r hwk
+    rw [TS.ended_not_active (hroots r)] at hact
+    cases hact
+  | sub i =>
+    obtain ⟨_, hact, hi⟩ := hB.wkSub w i hwk
+    have := hsub i hi
+    rw [TS.active_live hact] at this
+    cases this
+
+/-- A daemon killer whose `finally:` was interrupted by a REPEATED cancellation (`killerCut`: it ended without waiting
+    for its exit stoppers, since /repo 883284c `run_tasks` cancels the root tasks again when `operator()` is cancelled
+    while it is stopping) never meets the cleanup activity: the same call has cancelled `startup_cleanup_activities`
+    in its wait for the other root tasks, which leaves WITHOUT running the cleanup handlers. So `cleanup_last` loses
+    nothing: daemons whose stoppers nobody awaited never run beside the cleanup handlers. -/
+theorem interrupted_killer_never_meets_cleanup {cfg : Cfg} {s : State} (hr : Reach cfg s) (hk : s.killerCut = true) :
+    s.cleanupBegun = false :=
+  ((InvK.reach hr).cut (Or.inl hk)).2
+
+/-- In every variant with the three repairs (ab6fb15, d6da86b, 883284c) no run ever leaves the model: none of the
+    `leaves` labels is enabled, `abandoned` stays false. -/
+theorem repaired_never_abandoned {cfg : Cfg} (hsh : cfg.orchShielded = true) (hsp : cfg.spawnSwept = true)
+    (hst : cfg.stopSwept = true) {s : State} (hr : Reach cfg s) : s.abandoned = false := by
+  refine Reach.induction (P := fun s => s.abandoned = false) rfl ?_ s hr
+  intro s s' l _ hI h
+  cases hl : l.leaves with
+  | false => rw [abandoned_step h hl]; exact hI
+  | true =>
+    exfalso
+    cases l <;> simp [Label.leaves] at hl
+    all_goals (simp only [step] at h; split at h)
+    all_goals (first | (cases h; done) | skip)
+    all_goals (rename_i hh; simp [hsh, hsp, hst] at hh)
+
+/-- … in particular in THE MODEL OF THE CURRENT TREE (whatever the grace periods) -/
+theorem head_never_abandoned (e w d c h : Nat) {s : State} (hr : Reach (headCfg e w d c h) s) : s.abandoned = false :=
+  repaired_never_abandoned rfl rfl rfl hr
+
+/-- startup; an observer with a worker (a handler in flight); a stop flag: the stop-flag checker ends, `run_tasks` begins to
+    stop the root tasks, the observer enters its `finally:` (depletion of its workers, up to `E`) -/
+def stopCancelPrefix : List Label :=
+  startAll ++ [.workerStart (.root .resObserver), .act (.worker 0),
+               .setStopFlag, .rootEnd .stopFlag .done, .rtStopRoots, .rootStopping .resObserver false]
+
+/-- a stop flag with a handler in flight and a cooperative daemon; every root task takes its cancellation (the observer
+    depletes, the daemon killer waits for its exit stopper); 1/4 s later `operator()` is cancelled: `run_tasks` cancels the
+    root tasks AGAIN — the startup/cleanup task leaves its wait for the others (`scCut`), the killer its `finally:`
+    (`killerCut`) —, awaits them all (the handler in flight ends), sweeps the hung daemon, and only then ends CANCELLED -/
+def repeatedCancelRun : List Label :=
+  startAll ++
+  [.workerStart (.root .resObserver), .act (.worker 0), .daemonSpawn true,
+   .setStopFlag, .rootEnd .stopFlag .done, .rtStopRoots,
+   .rootStopping .resObserver false, .scWake, .rootStopping .daemonKiller false,
+   .rootEnd .ultimate .done, .rootEnd .coreWatcher .cancelled, .rootEnd .poster .cancelled,
+   .rootEnd .admChain .cancelled, .rootEnd .admValidating .cancelled, .rootEnd .admMutating .cancelled,
+   .rootEnd .admServer .cancelled, .rootEnd .nsObserver .cancelled,
+   .rootStopping .orchestrator false, .rootEnd .orchestrator .cancelled,
+   .delay 16,
+   .rtCancel,
+   .scCut, .rootEnd .daemonKiller .cancelled,
+   .scStopCore, .coreEnd .cancelled, .scCoreStopped, .rootEnd .startupCleanup .cancelled,
+   .delay 16, .workerEnd 0 .done, .rootEnd .resObserver .cancelled,
+   .rtCStopHung, .daemonExit 0, .rtExit .cancelled]
+
+/-- WITNESS about the CURRENT tree (deviation C20-D4, BY DESIGN; replayed on kopf: corpus `C20-D4`, trigger
+    `flag_then_cancel`): the FULL clause "cleanup handlers run (after everything else has stopped)" does not hold for a
+    cancellation of `operator()` that arrives while it is already stopping: the startup had completed, the run call ends
+    cancelled, and the cleanup activity never began ("Cleanup activity is not executed at all due to cancellation." —
+    kopf's documented "no graceful period at all on explicit cancellation"). What the repair of C20-F11 guarantees is
+    visible in the same run: the handler in flight has ended (`wk 0 = done`) and the daemon is gone BEFORE the return, the
+    run never left the model. -/
+theorem repeated_cancel_skips_cleanup_witness :
+    ∃ s, runC cfgHead init repeatedCancelRun = some s ∧ s.rt = .exited ∧ s.result = some .cancelled
+      ∧ s.startupDone = true ∧ s.cleanupBegun = false ∧ s.killerCut = true
+      ∧ s.wk 0 = some (.root .resObserver, .done) ∧ s.dm 0 = .ended ∧ s.abandoned = false
+      ∧ s.t0 = some 0 ∧ s.exitAt = some 32 :=
+  ⟨_, rfl, by decide, by decide, by decide, by decide, by decide, by decide, by decide, by decide, by decide, by decide⟩
+
+/-! ### HISTORICAL witnesses: what the OLD code did where the model leaves it (findings C20-F8, F10, F11; about the variants
+    `orchShielded` / `spawnSwept` / `stopSwept` := false, NOT about the current tree) -/
 
 /-- startup; the orchestrator spawns a watcher and a keep-alive task; the watcher's stream fails → the orchestrator is
     cancelled by its done-callback and begins to stop the ensemble (the keep-alive task enters its `finally:`: the
@@ -663,44 +846,65 @@ def doubleCancelPrefix : List Label :=
                .rootStopping .orchestrator true, .subStopping 1 false,
                .setStopFlag, .rootEnd .stopFlag .done, .rtStopRoots]
 
-/-- WITNESS about the CURRENT tree (`cfgHead`, finding C20-F8; replayed on kopf: corpus `C20-F8`, trigger
-    `failure_then_stop`): the second cancellation reaches the orchestrator while it stops its ensemble (`creq` on a
-    `stopping` orchestrator: cooperative time cannot pass) and `orchAbandon` is enabled: the orchestrator gives its
-    ensemble up — with the keep-alive task still withdrawing (live), the failure recorded (`orchErr`) but not yet raised,
-    and the cleanup not begun. What the code does from here (the cleanup activity runs beside the keep-alive task, the
-    orchestrator ends CANCELLED, `operator()` returns normally) contradicts `cleanup_last`, `stream_failure_stops_all`
-    and `reraise` without their guard `abandoned = false`; the model stops describing the code at this label. -/
-theorem double_cancel_abandons_ensemble_witness :
-    ∃ s0 s, runC cfgHead init doubleCancelPrefix = some s0
+/-- HISTORICAL WITNESS (finding C20-F8, repaired by /repo ab6fb15; corpus `C20-F8`, `C20-F8_hang`: regressions now) — about
+    the OLD code, variant `orchShielded := false`: the second cancellation reached the orchestrator while it stopped its
+    ensemble (`creq` on a `stopping` orchestrator) and `orchAbandon` was enabled: the orchestrator gave its ensemble up —
+    with the keep-alive task still withdrawing (live), the failure recorded (`orchErr`) but not yet raised, and the cleanup
+    not begun; the old code then ran the cleanup beside the keep-alive task and returned normally. -/
+theorem historical_double_cancel_abandons_ensemble_witness :
+    ∃ s0 s, runC cfgUnshielded init doubleCancelPrefix = some s0
       ∧ s0.abandoned = false ∧ (s0.st (.root .orchestrator)).isStopping = true ∧ s0.creq (.root .orchestrator) = true
-      ∧ urgent cfgHead s0 = true
-      ∧ step cfgHead s0 .orchAbandon = some s
+      ∧ urgent cfgUnshielded s0 = true
+      ∧ step cfgUnshielded s0 .orchAbandon = some s
       ∧ s.abandoned = true ∧ s.orchErr = true ∧ (s.st (.sub 1)).live = true ∧ s.kind 1 = .pinger ∧ s.withdrawn 1 = false
       ∧ s.cleanupBegun = false ∧ s.rt = .stoppingRoots ∧ s.result = none :=
   ⟨_, _, rfl, by decide, by decide, by decide, by decide, rfl, by decide, by decide, by decide, by decide, by decide,
    by decide, by decide, by decide⟩
 
-/-- In the variant `orchShielded` (the proposed repair) no run ever abandons the ensemble: the guard `abandoned = false`
-    of the shutdown theorems is met by every reachable state. -/
-theorem shielded_never_abandoned {cfg : Cfg} (hsh : cfg.orchShielded = true) {s : State} (hr : Reach cfg s) :
-    s.abandoned = false := by
-  refine Reach.induction (P := fun s => s.abandoned = false) rfl ?_ s hr
-  intro s s' l _ hI h
-  by_cases hl : l = .orchAbandon
-  · subst hl
-    simp only [step] at h
-    split at h
-    · rename_i hh; rw [hsh] at hh; exact absurd hh.2.1 (by simp)
-    · cases h
-  · rw [abandoned_step h hl]; exact hI
+/-- … the same prefix on THE CURRENT TREE: the second cancellation does not reach the stopping orchestrator, `orchAbandon` is
+    not enabled, the recorded failure is kept (regression of C20-F8; hypotheses of `repaired_never_abandoned` on a
+    non-trivial state) -/
+example : ∃ s0, runC cfgHead init doubleCancelPrefix = some s0
+    ∧ s0.creq (.root .orchestrator) = false ∧ step cfgHead s0 .orchAbandon = none ∧ s0.orchErr = true
+    ∧ s0.st (.root .orchestrator) = .stopping true none
+    ∧ step cfgHead s0 .stopCancel = none ∧ step cfgHead init .spawnCancel = none :=
+  ⟨_, rfl, by decide, by decide, by decide, by decide, by decide, by decide⟩
 
-/-- … the same prefix on the repaired variant: the second cancellation does not reach the stopping orchestrator,
-    `orchAbandon` is not enabled (hypothesis of `shielded_never_abandoned` on a non-trivial state) -/
-example : ∃ s0, runC cfgShielded init doubleCancelPrefix = some s0
-    ∧ s0.creq (.root .orchestrator) = false ∧ step cfgShielded s0 .orchAbandon = none ∧ s0.orchErr = true :=
-  ⟨_, rfl, by decide, by decide, by decide⟩
+/-- HISTORICAL WITNESS (finding C20-F10, repaired by /repo d6da86b; corpus `C20-F10`: a regression now) — about the OLD code,
+    variant `spawnSwept := false`: one loop iteration after `operator()` was called — `spawn_tasks` sits in its final
+    `sleep(0)`, the freshly created tasks have run their first segments — a cancellation of `operator()` was `spawnCancel`:
+    `operator()` ended CANCELLED at that moment while every root task and the core task were alive and belonged to nobody
+    (nothing cancelled: `creq` false everywhere). -/
+theorem historical_cancel_in_spawn_abandons_tasks_witness :
+    ∃ s0 s, runC cfgSpawnUnswept init [.scStartupBegin] = some s0
+      ∧ s0.abandoned = false ∧ s0.now = 0
+      ∧ step cfgSpawnUnswept s0 .spawnCancel = some s
+      ∧ s.abandoned = true ∧ (∀ r, (s.st (.root r)).live = true) ∧ (∀ r, s.creq (.root r) = false) ∧ s.core.live = true
+      ∧ s.sc = .startup ∧ s.startupDone = false ∧ s.t0 = none ∧ s.result = none :=
+  ⟨_, _, rfl, by decide, by decide, rfl, by decide, by (intro r; cases r <;> decide), by (intro r; cases r <;> decide),
+   by decide, by decide, by decide, by decide, by decide⟩
 
-/-! ### What the code does NOT guarantee (witnesses about the current tree) -/
+/-- … on THE CURRENT TREE the same cancellation is an ordinary `rtCancel` (since /repo d6da86b `spawn_tasks` stops its tasks and
+    `operator()` sweeps the leftovers: the same two stops as in `run_tasks`): every root task is cancelled, the run goes on to
+    `exited` with everything over (`nothing_alive_at_return`) (regression of C20-F10) -/
+example : ∃ s0 s, runC cfgHead init [.scStartupBegin] = some s0 ∧ step cfgHead s0 .spawnCancel = none
+    ∧ step cfgHead s0 .rtCancel = some s ∧ s.rt = .cStoppingRoots ∧ s.t0 = some 0 ∧ (∀ r, s.creq (.root r) = true) :=
+  ⟨_, _, rfl, by decide, rfl, by decide, by decide, by (intro r; cases r <;> decide)⟩
+
+/-- HISTORICAL WITNESS (finding C20-F11, repaired by /repo 883284c; corpus `C20-F11`: a regression now) — about the OLD code,
+    variant `stopSwept := false`: while `run_tasks` awaited `stop(root_pending)` — a worker still ran its handler, the observer
+    depleted, the cleanup had not begun — a cancellation of `operator()` was `stopCancel`: `operator()` ended at once; the
+    handler went on, the cleanup handlers ran AFTER the run call had returned. -/
+theorem historical_cancel_while_stopping_abandons_tasks_witness :
+    ∃ s0 s, runC cfgStopUnswept init stopCancelPrefix = some s0
+      ∧ s0.abandoned = false ∧ s0.rt = .stoppingRoots
+      ∧ step cfgStopUnswept s0 .stopCancel = some s
+      ∧ s.abandoned = true ∧ s.wk 0 = some (.root .resObserver, .running)
+      ∧ (s.st (.root .resObserver)).isStopping = true ∧ (s.st (.root .startupCleanup)).live = true
+      ∧ s.cleanupBegun = false ∧ s.result = none :=
+  ⟨_, _, rfl, by decide, by decide, rfl, by decide, by decide, by decide, by decide, by decide, by decide⟩
+
+/-! ### What the code does NOT guarantee (witnesses about the current tree), and the repaired C20-F5 -/
 
 /-- a complete run: startup, ready, an observer and the orchestrator with a watcher and a keep-alive task, a worker,
     a cooperative and a stubborn daemon, a stop flag, everything stopped in order, the cleanup activity, the hung
@@ -727,7 +931,8 @@ theorem withdrawal_may_fail_witness :
       ∧ s.kind 1 = .pinger ∧ s.withdrawn 1 = true ∧ s.withdrawnOk 1 = false :=
   ⟨_, rfl, by decide, by decide, by decide, by decide, by decide⟩
 
-/-- a worker of the CRD observer fails AFTER its watcher has entered its `finally:` (depletion of the workers) -/
+/-- a worker of the CRD observer fails AFTER its watcher has entered its `finally:` (depletion of the workers); the OLD code
+    let the observer end cancelled -/
 def deplRun : List Label :=
   startAll ++
   [.workerStart (.root .resObserver),
@@ -740,15 +945,69 @@ def deplRun : List Label :=
    .coreEnd .cancelled, .scCoreStopped, .scCleanupEnd .none, .vaultClosed, .rootEnd .startupCleanup .done,
    .rtHungWait, .rtStopHung, .rtExit .returned]
 
-/-- WITNESS (finding C20-F5): the FULL clause "an object worker failing unrecoverably stops the whole operator /
-    is re-raised" does not hold for a worker that fails while its watcher is already depleting its workers: the
-    failure is only logged (`_task_done_callback` → `exception_handler` cancels an already cancelled task), nothing is
-    marked, the operator returns NORMALLY. (During a shutdown there is nothing left to stop; what is lost is the
-    re-raise.) -/
-theorem worker_failure_during_depletion_dropped_witness :
-    ∃ s, runC cfgHead init deplRun = some s ∧ s.rt = .exited ∧ s.result = some .returned
+/-- HISTORICAL WITNESS (finding C20-F5, repaired by /repo 69d1957; corpus `C20-F5`: a regression now) — about the OLD code,
+    variant `deplEscalates := false`: a worker that failed while its watcher was already depleting its workers was only
+    logged (`_task_done_callback` → `exception_handler` cancels a task that suppresses cancellations there), nothing was
+    marked, the operator returned NORMALLY. Shows that the hypothesis of `worker_failure_reaches_watcher` is needed. -/
+theorem historical_worker_failure_during_depletion_dropped_witness :
+    ∃ s, runC cfgDeplSilent init deplRun = some s ∧ s.rt = .exited ∧ s.result = some .returned
       ∧ s.wk 0 = some (.root .resObserver, .failed) ∧ s.rootFailed = false ∧ s.tFail = none :=
   ⟨_, rfl, by decide, by decide, by decide, by decide, by decide⟩
+
+/-- … the second face of C20-F5: the served CRD is deleted while a worker runs a handler; the watcher meets HTTP 404
+    (`subGone`: not a failure, the orchestrator is not cancelled) and depletes its workers; THEN the worker fails -/
+def goneDeplPrefix : List Label :=
+  startAll ++ [.subSpawn .watcher, .workerStart (.sub 0), .act (.worker 0), .subGone 0, .workerEnd 0 .failed,
+               .subEnd 0 .failed]
+
+/-- HISTORICAL WITNESS (finding C20-F5, the "operator keeps running" face; corpus `C20-F5_keeps_running`: a regression now) —
+    about the OLD code, variant `deplEscalates := false`: after an unrecoverable worker failure during the depletion of a
+    watcher whose resource is gone, ANY amount of time passed COOPERATIVELY with the operator still waiting: every root task
+    alive, nothing cancelled, nothing escalated (`tFail = none`, `orchErr = false`), no outcome. -/
+theorem historical_worker_failure_after_gone_keeps_running_witness (n : Nat) (hn : 0 < n) :
+    ∃ s, runC cfgDeplSilent init (goneDeplPrefix ++ [.delay n]) = some s
+      ∧ s.wk 0 = some (.sub 0, .failed) ∧ s.st (.sub 0) = .failed ∧ s.gone 0 = true
+      ∧ s.rt = .waiting ∧ s.result = none ∧ s.now = n ∧ s.tFail = none ∧ s.orchErr = false ∧ s.abandoned = false
+      ∧ (∀ r, (s.st (.root r)).live = true) ∧ (∀ r, s.creq (.root r) = false) := by
+  have hp : ∃ s0, runC cfgDeplSilent init goneDeplPrefix = some s0 ∧ quiet s0 = true ∧ urgent cfgDeplSilent s0 = false
+      ∧ s0.rt = .waiting ∧ s0.wk 0 = some (.sub 0, .failed) ∧ s0.st (.sub 0) = .failed ∧ s0.gone 0 = true
+      ∧ s0.result = none ∧ s0.now = 0 ∧ s0.tFail = none ∧ s0.orchErr = false ∧ s0.abandoned = false
+      ∧ (∀ r, (s0.st (.root r)).live = true) ∧ (∀ r, s0.creq (.root r) = false) := by
+    refine ⟨_, rfl, by decide, by decide, rfl, by decide, by decide, by decide, rfl, rfl, by decide, by decide, by decide,
+            ?_, ?_⟩ <;> (intro r; cases r <;> decide)
+  obtain ⟨s0, h0, hq, hu, hw, hwk, hf, hg, hres, hnow, htf, hoe, hab, hl, hc⟩ := hp
+  refine ⟨{ s0 with now := s0.now + n }, ?_, hwk, hf, hg, hw, hres, by simp [hnow], htf, hoe, hab, hl, hc⟩
+  rw [runC_append, h0]
+  simp only [Option.bind_some, runC]
+  rw [quiet_delay hq hu (by simp [hw]) n hn]
+
+/-- … the same on THE CURRENT TREE (regression of C20-F5, "keeps running"): the failing worker makes the depleting watcher fail
+    with the RuntimeError (it is not "gone" any more), the orchestrator is cancelled at once, cooperative time cannot pass, the
+    failure is marked (hypotheses of `worker_failure_reaches_watcher`, `worker_failure_stops_all`) -/
+example : ∃ s, runC cfgHead init goneDeplPrefix = some s
+    ∧ s.wk 0 = some (.sub 0, .failed) ∧ s.st (.sub 0) = .failed ∧ s.gone 0 = false ∧ s.werr (.sub 0) = true
+    ∧ s.creq (.root .orchestrator) = true ∧ s.orchErr = true ∧ urgent cfgHead s = true ∧ s.tFail = some 0
+    ∧ s.failWho = some (.sub 0) :=
+  ⟨_, rfl, by decide, by decide, by decide, by decide, by decide, by decide, by decide, by decide, by decide⟩
+
+/-- … and the shutdown face on THE CURRENT TREE (regression of C20-F5): the observer whose worker failed during the depletion
+    ends FAILED, `operator()` raises -/
+def deplRunHead : List Label :=
+  startAll ++
+  [.workerStart (.root .resObserver),
+   .setStopFlag, .rootEnd .stopFlag .done, .rtStopRoots, .rootStopping .resObserver false, .workerEnd 0 .failed,
+   .rootEnd .resObserver .failed,
+   .rootEnd .ultimate .done, .rootEnd .coreWatcher .cancelled, .scWake, .rootEnd .poster .cancelled,
+   .rootEnd .admChain .cancelled, .rootEnd .admValidating .cancelled, .rootEnd .admMutating .cancelled,
+   .rootEnd .admServer .cancelled, .rootEnd .nsObserver .cancelled, .rootStopping .orchestrator false,
+   .rootEnd .orchestrator .cancelled, .rootEnd .daemonKiller .cancelled, .scWaitRootsEnd, .scStopCore,
+   .coreEnd .cancelled, .scCoreStopped, .scCleanupEnd .none, .vaultClosed, .rootEnd .startupCleanup .done,
+   .rtHungWait, .rtStopHung, .rtExit .raised]
+
+example : ∃ s, runC cfgHead init deplRunHead = some s ∧ s.rt = .exited ∧ s.result = some .raised
+    ∧ s.wk 0 = some (.root .resObserver, .failed) ∧ s.st (.root .resObserver) = .failed ∧ s.rootFailed = true
+    ∧ s.tFail = some 0 ∧ s.cleanupBegun = true ∧ step cfgHead init .rtCancel ≠ none :=
+  ⟨_, rfl, by decide, by decide, by decide, by decide, by decide, by decide, by decide, by decide⟩
 
 /-- WITNESS: without cooperativity NOTHING bounds the exit — `run_tasks` awaits the cancelled root tasks without any
     timeout (`aiotasks.stop`), so a task that does not honour its cancellation (here: all of them, for `n` ticks) keeps
@@ -774,6 +1033,11 @@ example : ∃ s, runC cfgHead init (fullRun true) = some s ∧ s.rt = .exited 
   ⟨_, rfl, by decide, by decide, by decide, by decide, by decide, by decide, by decide, by decide, by decide,
    by decide, by decide, by decide⟩
 
+/-- the stop flag is set in the steady state (hypotheses of `stop_flag_felt_at_once`): cooperative time cannot pass -/
+example : ∃ s, runC cfgHead init (startAll ++ [.delay 64, .setStopFlag]) = some s
+    ∧ s.stopFlagSet = true ∧ s.rt = .waiting ∧ urgent cfgHead s = true ∧ s.now = 64 :=
+  ⟨_, rfl, by decide, by decide, by decide, by decide⟩
+
 /-- a failed startup (hypothesis of `failed_startup_no_api`, and of `failure_to_stop_bound_partial` with
     `tFail = some 0`), run to its end: re-raised -/
 example : ∃ s, runC cfgHead init
@@ -789,7 +1053,7 @@ example : ∃ s, runC cfgHead init
   ⟨_, rfl, by decide, by decide, by decide, by decide, by decide, by decide, by decide⟩
 
 /-- a worker of a root observer fails while the observer streams (hypotheses of
-    `worker_failure_reaches_watcher_partial` and of `worker_failure_stops_all`): the observer ends failed, the
+    `worker_failure_reaches_watcher` and of `worker_failure_stops_all`): the observer ends failed, the
     failure is marked, cooperative time cannot pass -/
 example : ∃ s, runC cfgHead init
     [.scStartupBegin, .scStartupEnd .none, .setStarted, .ready, .enter .resObserver, .workerStart (.root .resObserver),
